@@ -14,6 +14,7 @@ package bfe_server
 //@   requires[heap_is_closed] req.Header == nil || allocated(req.Header)
 //@   modifies outreq.Header
 //@   ensures[hop_by_hop_fields_do_not_reach_the_backend] forall i int :: 0 <= i && i < len(bfe_basic.HopHeaders) ==> !has(outreq.Header, canonKey(bfe_basic.HopHeaders[i])) || len(outreq.Header[canonKey(bfe_basic.HopHeaders[i])]) == 0 || (bfe_basic.HopHeaders[i] == "Te" && len(outreq.Header[canonKey("Te")]) == 1 && outreq.Header[canonKey("Te")][0] == "trailers")
+//@   ensures[fields_named_in_Connection_are_removed] forall a int :: 0 <= a && a < len(old(req.Header[canonKey("Connection")])) ==> (forall b int :: 0 <= b && b < splitCount(old(req.Header[canonKey("Connection")][a]), ",") ==> trimSpace(splitPiece(old(req.Header[canonKey("Connection")][a]), ",", b)) == "" || !has(outreq.Header, canonKey(trimSpace(splitPiece(old(req.Header[canonKey("Connection")][a]), ",", b)))))
 //@   loop 1 invariant[removed_so_far] forall i int :: 0 <= i && i <= rangeindex ==> !has(outreq.Header, canonKey(bfe_basic.HopHeaders[i])) || len(outreq.Header[canonKey(bfe_basic.HopHeaders[i])]) == 0 || (bfe_basic.HopHeaders[i] == "Te" && len(outreq.Header[canonKey("Te")]) == 1 && outreq.Header[canonKey("Te")][0] == "trailers")
 //@   loop 1 invariant[the_clients_map_is_left_alone] req.Header == old(req.Header) && canonicalKeys(req.Header) && (!copiedHeaders ==> outreq.Header == req.Header)
 //@   loop 1 invariant[deletions_only_touch_the_copy] copiedHeaders ==> outreq.Header != nil && !allocated(outreq.Header)
